@@ -7,6 +7,7 @@ import (
 	"bytes"
 	"context"
 	crand "crypto/rand"
+	"crypto/sha256"
 	"encoding/binary"
 	"errors"
 	"fmt"
@@ -634,4 +635,55 @@ func zzHeaderBlob(h *types.SignedHeader) []byte {
 	}
 	b, _ := proto.Marshal(p)
 	return b
+}
+
+// ---- deterministic executor and proposer chains (C02/C05) -------------------
+
+func zzDetRoot(prev []byte, h uint64, txs [][]byte) []byte {
+	buf := append([]byte(nil), prev...)
+	buf = append(buf, zzLE(h)...)
+	for _, tx := range txs {
+		buf = append(buf, byte(len(tx)))
+		buf = append(buf, tx...)
+	}
+	s := sha256.Sum256(buf)
+	return s[:]
+}
+
+// zzDetExec: the execution layer as a deterministic function of the executed
+// transactions (what C15 establishes for the reference executor).
+type zzDetExec struct {
+	zzExec
+}
+
+func (e *zzDetExec) ExecuteTxs(ctx context.Context, txs [][]byte, h uint64, t time.Time, prev []byte) ([]byte, uint64, error) {
+	if e.failExec {
+		return nil, 0, zzErrInjected
+	}
+	root := zzDetRoot(prev, h, txs)
+	e.calls = append(e.calls, zzExecCall{txs, h, prev, root})
+	return root, 1 << 20, nil
+}
+
+// zzProposerChain builds the proposer's blocks base+1..base+n on top of an
+// arbitrary state root: hash linked, signed, AppHash = root before the block
+// (delayed execution).  Returns the slots and the roots after each block.
+func (e *zzEnv) zzProposerChain(base uint64, n int, nonEmpty []bool, root0 []byte) ([]*zzSlot, [][]byte) {
+	prev := types.Hash(zzsym.BytesN("hashBase", 32))
+	ts := zzTimeNs("tsBase")
+	root := root0
+	var slots []*zzSlot
+	var roots [][]byte
+	for i := 0; i < n; i++ {
+		var txs types.Txs
+		if nonEmpty[i] {
+			txs = types.Txs{types.Tx(zzsym.BytesN("tx", 1))}
+		}
+		sl := e.zzSignedBlock("p", base+uint64(i)+1, ts+int64(i), prev, root, txs)
+		root = zzDetRoot(root, base+uint64(i)+1, zzRaw(sl.data.Txs))
+		slots = append(slots, sl)
+		roots = append(roots, root)
+		prev = sl.header.Hash()
+	}
+	return slots, roots
 }
